@@ -77,6 +77,7 @@ def lworldWith (lc : LifeCycle) (methods : LV → List LV → List (String × LV
   int := .int
   str := .str
   list := .list
+  newList vs := pure (.list vs)
   tuple := .list
   global n := if n == "time" then pure .timeMod else throw "NameError"
   truthy
